@@ -3,6 +3,7 @@
 Require Import AT.Model.Base AT.Model.Heap AT.Model.Mutate AT.Spec.MutSpec.
 Require AT.Proofs.MutParent AT.Proofs.MutHistory AT.Proofs.MutDelRun AT.Proofs.MutSetRun AT.Proofs.FaultExt.
 Import AT.Proofs.MutParent.
+Require AT.Model.Rose AT.Model.Abs AT.Spec.IterSpec AT.Proofs.FrameTree.
 
 (** [n.parent = v] (v a node or None), hooks not raising, from any point of
     any history (any state satisfying the C01 invariant, any hook counter and
@@ -115,6 +116,42 @@ Theorem C02_quiet_oracle_is_fault_free : forall typed asrt faults fuel o s,
   run_op typed asrt faults fuel o s = run_op typed asrt no_faults fuel o s.
 Proof. exact AT.Proofs.FaultExt.quiet_oracle_is_fault_free. Qed.
 Print Assumptions C02_quiet_oracle_is_fault_free.
+
+(** the frame clause as trees: "subtrees below moved nodes and every node not
+    named by the call keep their parent and child order".  After a successful
+    parent assignment (its effect is [eff_set_parent], C02_parent) the
+    unfolding below any node x that shows neither the old nor the new parent
+    is the same tree as before ... *)
+Theorem C02_move_frame_trees : forall h, Inv h -> forall n v x, x < length h ->
+  (forall q, parent h n = Some q -> ~ In q (AT.Spec.IterSpec.preorder (AT.Model.Abs.tree_of h x))) ->
+  (forall p, v = Some p -> ~ In p (AT.Spec.IterSpec.preorder (AT.Model.Abs.tree_of h x))) ->
+  AT.Model.Abs.tree_of (eff_set_parent h n v) x = AT.Model.Abs.tree_of h x.
+Proof. exact AT.Proofs.FrameTree.move_frame. Qed.
+Print Assumptions C02_move_frame_trees.
+
+(** ... and the moved node takes its whole subtree along, shape and child
+    order at every depth: the only exception is a new parent inside that
+    subtree, which is exactly the LoopError case *)
+Theorem C02_move_keeps_subtree : forall h, Inv h -> forall n v, n < length h ->
+  (forall p, v = Some p -> ~ In p (AT.Spec.IterSpec.preorder (AT.Model.Abs.tree_of h n))) ->
+  AT.Model.Abs.tree_of (eff_set_parent h n v) n = AT.Model.Abs.tree_of h n.
+Proof. exact AT.Proofs.FrameTree.move_keeps_subtree. Qed.
+Print Assumptions C02_move_keeps_subtree.
+
+(** the general principle behind both: an unfolding depends only on the
+    children lists of the nodes it shows (no consistency assumption needed) *)
+Theorem C02_unfolding_depends_on_shown_children : forall (h h' : heap) x, length h' = length h ->
+  (forall y, In y (AT.Spec.IterSpec.preorder (AT.Model.Abs.tree_of h x)) -> children h' y = children h y) ->
+  AT.Model.Abs.tree_of h' x = AT.Model.Abs.tree_of h x.
+Proof. exact AT.Proofs.FrameTree.tree_of_frame. Qed.
+Print Assumptions C02_unfolding_depends_on_shown_children.
+
+Example C02_frame_example :
+  let h := attach_links (attach_links (attach_links (init 5) 1 0) 2 1) 4 3 in
+  AT.Model.Abs.tree_of (eff_set_parent h 1 (Some 3)) 1 = AT.Model.Abs.tree_of h 1 /\
+  AT.Spec.IterSpec.preorder (AT.Model.Abs.tree_of (eff_set_parent h 1 (Some 3)) 3) = [3; 4; 1; 2] /\
+  AT.Spec.IterSpec.preorder (AT.Model.Abs.tree_of h 1) = [1; 2].
+Proof. vm_compute. repeat split. Qed.
 
 Example C02_example :
   let h := attach_links (attach_links (attach_links (init 4) 1 0) 2 0) 3 1 in
